@@ -113,11 +113,13 @@ class Pool:
             for dkey, dirn in (("C", Direction.OUT), ("H", Direction.IN)):
                 if name == "UseCircuitCode" and dkey == "C":
                     continue
-                for v in range(variants):
+                has_var = any(b.block_type == MsgBlockType.MBT_VARIABLE for b in tmpl.blocks)
+                # variant -1: every Variable block present with ZERO instances (label "<name>/0")
+                for v in ([-1] if has_var else []) + list(range(variants)):
                     blocks = []
                     for b in tmpl.blocks:
                         n = 1 if b.block_type == MsgBlockType.MBT_SINGLE else b.number \
-                            if b.block_type == MsgBlockType.MBT_MULTIPLE else rng.choice([1, 1, 2, 3])
+                            if b.block_type == MsgBlockType.MBT_MULTIPLE else 0 if v < 0 else rng.choice([1, 1, 2, 3])
                         for _ in range(n):
                             blocks.append(Block(b.name, **{var.name: _rand_val(rng, var) for var in b.variables}))
                     flags = 0
@@ -130,6 +132,10 @@ class Pool:
                         acks = tuple(rng.randrange(1, 1 << 20) for _ in range(rng.choice([1, 2, 3])))
                         flags |= PacketFlags.ACK
                     m = Message(name, *blocks, packet_id=0, flags=int(flags), acks=acks, direction=dirn)
+                    if v < 0:
+                        for b in tmpl.blocks:
+                            if b.block_type == MsgBlockType.MBT_VARIABLE:
+                                m.create_block_list(b.name)
                     if name == "ChatFromViewer":
                         m["ChatData"]["Channel"] = rng.choice([0, 1, -5, 100])   # 524 is the addon command channel
                     try:
@@ -141,7 +147,7 @@ class Pool:
                     if back != data or len(data) > 900:
                         self.excluded.append((name, dkey, "not canonical" if back != data else "too long"))
                         continue
-                    ent = (name, data)
+                    ent = (name + ("/0" if v < 0 else ""), data)
                     if name in KILL_NAMES:
                         self.kills[dkey].append(ent)
                     elif name in self.banned_names:
@@ -149,7 +155,7 @@ class Pool:
                     else:
                         self.msgs[dkey].append(ent)
                         last = tmpl.blocks[-1].variables[-1] if tmpl.blocks and tmpl.blocks[-1].variables else None
-                        if (last is not None and last.type not in (MsgType.MVT_VARIABLE,) and last.size >= 2
+                        if (v >= 0 and last is not None and last.type not in (MsgType.MVT_VARIABLE,) and last.size >= 2
                                 and not (flags & (PacketFlags.ZEROCODED | PacketFlags.ACK))):
                             self.badbody[dkey].append((name, data[:-1]))
         # message numbers no template has
@@ -417,7 +423,7 @@ def _concretise(w: World, lay, act):
         label, pl = w.payload("H", k, act["s"])
         return label, pl, pl, (w.sims[h - 1] if h else w.unk)
     label, pl = w.payload("C", "msg" if k in SOCKS_BAD or k == "dom" else k, act["s"])
-    hdr = bytes(lay["simhdr"][h - 1] if h else lay["unkhdr"])
+    hdr = bytes(lay["simhdr"][h - 1] if h > 0 else lay["clienthdr"][-h - 1] if h < 0 else lay["unkhdr"])
     if k in SOCKS_BAD:
         return label, pl, _bad_socks(rng, k, hdr, pl), w.clients[a - 1]
     if k == "dom":
@@ -496,6 +502,11 @@ def _reach(lay, skey, seed):
     return w, hist
 
 
+def _poisons(act):
+    """A viewer datagram that is a well-formed SOCKS request for a viewer's own address."""
+    return act["n"] == "C" and act["h"] < 0 and act["k"] not in SOCKS_BAD and act["k"] != "dom"
+
+
 def _replay_states(tasks):
     """tasks: [(state key, layout index)].  Self-loop edges of a state are replayed one after the
     other on the same objects (so a discard that disturbs anything shows up in the next ones),
@@ -511,21 +522,44 @@ def _replay_states(tasks):
         loops = [e for e in edges if e["_d"] == e["_s"]]
         moves = [e for e in edges if e["_d"] != e["_s"]]
         random.Random(base).shuffle(loops)
+        # mis-addressed (to a viewer's own address) datagrams go last, each followed by probes: edges
+        # of the same association that must forward and already did on these very objects
+        selfies = [e for e in loops if e["act"]["n"] == "C" and e["act"]["h"] < 0]
+        loops = [e for e in loops if not (e["act"]["n"] == "C" and e["act"]["h"] < 0)]
         w, hist = _reach(lay, skey, base)
         since = []
-        for e in loops:
-            if e["act"]["k"] == "spoof" and lay["unk"]["ip"] == lay["clients"][e["act"]["a"] - 1]["ip"]:
-                continue    # on the viewer's own IP a stranger cannot be told from the viewer
+        passed = []
+
+        def one(e, probe_of=None):
+            nonlocal w, hist, since
             label, pl, sends, raised = _apply(w, lay, e["act"])
-            n_edges += 1
             used.add((e["act"]["n"], e["act"]["k"], label))
             bad = _judge(w, lay, e, label, pl, sends, raised)
             since.append(dict(e["act"], label=label))
             if bad:
-                fails.append({"layout": li + 1, "history": hist + since[-6:], "act": e["act"], "label": label, "mismatches": bad[:2]})
+                fails.append({"layout": li + 1, "history": hist + since[-6:], "act": e["act"], "label": label, "mismatches": bad[:2],
+                              "after_self_addressed": e["act"]["n"] == "C" and any(
+                                  _poisons(x) and x["a"] == e["act"]["a"] for x in since[:-1])})
                 w.close()
                 w, hist = _reach(lay, skey, base + len(fails))
                 since = []
+                return False
+            return True
+        for e in loops:
+            if e["act"]["k"] == "spoof" and lay["unk"]["ip"] == lay["clients"][e["act"]["a"] - 1]["ip"]:
+                continue    # on the viewer's own IP a stranger cannot be told from the viewer
+            n_edges += 1
+            if one(e) and e["obs"]["sends"] and not e["obs"]["may"]:
+                passed.append(e)
+        for e in selfies:
+            n_edges += 1
+            if not one(e):
+                continue
+            probes = [p for p in passed if p["act"]["a"] == e["act"]["a"]]
+            for p in random.Random(base + n_edges).sample(probes, min(3, len(probes))):
+                n_edges += 1
+                if not one(p):
+                    break
         w.close()
         for j, e in enumerate(moves):
             w, hist = _reach(lay, skey, base + 7919 * (j + 1))
@@ -535,7 +569,7 @@ def _replay_states(tasks):
             bad = _judge(w, lay, e, label, pl, sends, raised)
             if bad:
                 fails.append({"layout": li + 1, "history": hist + [dict(e["act"], label=label)], "act": e["act"], "label": label,
-                              "mismatches": bad[:2]})
+                              "mismatches": bad[:2], "after_self_addressed": False})
             w.close()
     return n_edges, fails, used
 
@@ -543,7 +577,8 @@ def _replay_states(tasks):
 def _features(f):
     m = f["mismatches"][0]
     act = f["act"]
-    feat = {"kind": "b1", "clause": m["clause"], "what": m["what"], "act": act["n"], "k": act["k"]}
+    feat = {"kind": "b1", "clause": m["clause"], "what": m["what"], "act": act["n"], "k": act["k"],
+            "after_self_addressed": f["after_self_addressed"]}
     if act["k"] in ("msg", "kill", "banned", "badbody", "ucc"):
         feat["msg"] = f["label"]
     return feat
@@ -644,7 +679,7 @@ def _walk(pool: Pool, seed, NA, NS, NH, length):
     evs = [{"ev": "Cfg", "clients": clients, "sims": sims}]
     logged = {}
     registered = {}
-    stats = {"fwd_c": 0, "fwd_h": 0, "discards": 0, "names": set()}
+    stats = {"fwd_c": 0, "fwd_h": 0, "discards": 0, "names": set(), "selfie": {}}
 
     def sent_json(sends):
         return [{"via": v, "data": list(d), "to": _ipb(t)} for v, d, t in sends]
@@ -652,6 +687,7 @@ def _walk(pool: Pool, seed, NA, NS, NH, length):
     def sock_hdr(e):
         return b"\x00\x00\x00\x01" + bytes(e["ip"]) + struct.pack("!H", e["port"])
     p_garbage = rng.choice([0.15, 0.35, 0.6])
+    selfie_from = int(length * 0.7) if rng.random() < 0.25 else length   # mis-addressed to a viewer: late, in some walks
     for step in range(length):
         c = rng.random()
         pending_login = [s for s in range(1, NS + 1) if s not in logged]
@@ -698,6 +734,11 @@ def _walk(pool: Pool, seed, NA, NS, NH, length):
                 s = held_s if held_s else rng.choice([0] + list(range(1, NS + 1)) * 3)
             label, pl = w.payload("C", "msg" if k in SOCKS_BAD or k == "dom" else k, s)
             tgt = sims[h - 1] if h else unk
+            if step >= selfie_from and rng.random() < 0.08:
+                b = rng.choice([a, a, rng.randrange(1, NA + 1)])
+                tgt = clients[b - 1]
+                if b == a and k not in SOCKS_BAD and k != "dom":
+                    stats["selfie"].setdefault(a, len(evs))
             if k in SOCKS_BAD:
                 dgram = _bad_socks(rng, k, sock_hdr(tgt), pl)
             elif k == "dom":
@@ -737,7 +778,13 @@ def _walk(pool: Pool, seed, NA, NS, NH, length):
             else:
                 stats["discards"] += 1
     w.close()
+    for i, e in enumerate(evs):
+        e["i"] = i
     return evs, stats
+
+
+def _clip_trace(evs):
+    return [{k: (v[:48] + ["..."] if isinstance(v, list) and len(v) > 48 else v) for k, v in e.items()} for e in evs if e]
 
 
 def _walk_chunk(args):
@@ -753,7 +800,40 @@ def _b2(chk: Check, n_walks, length, label):
     traces = [r[0] for r in res]
     cfg = ("SPECIFICATION TraceSpec\nCONSTANTS NA = %d NS = %d NH = %d Dyn = TRUE\nPOSTCONDITION TraceAccepted\n"
            "CHECK_DEADLOCK FALSE\n" % (NA, NS, NH))
-    fails = common.check_traces(chk, "UdpProxy_Trace", cfg, traces, label, shards=4 if chk.tier == "quick" else common.NCPU)
+    acc, rej, results = common.validate_traces("UdpProxy_Trace", cfg, traces, chk.scratch,
+                                               shards=4 if chk.tier == "quick" else common.NCPU)
+    fails = {}
+    for r in results:
+        chk.add_tlc(r, "UdpProxy_Trace " + label)
+        for rec in r.printed():
+            if isinstance(rec, dict) and "fail" in rec:
+                fails.setdefault(rec["tid"], []).append(rec)
+    chk.cov["traces_validated_against_impl"] += len(traces)
+    chk.count(sum(len(t) for t in traces))
+    for ti, j, ev in rej:
+        chk.violation("B2 %s: trace rejected by UdpProxy_Trace at event %d (%s)" % (label, j, ev.get("ev")),
+                      {"kind": "b2-reject", "event": ev.get("ev"), "k": ev.get("k"), "msg": ev.get("label")},
+                      {"trace_prefix": _clip_trace(traces[ti][max(0, j - 8):j + 1])})
+    for tid, fl in fails.items():
+        seen = set()
+        for f in fl:
+            # fail names are "<C|H|Login|Reg>.<sent|state> <kind> <message label>"
+            # fail names are "<C|H>.<sent|state> <kind> <message label> <event index>"
+            parts = f["fail"].split(" ")
+            if len(parts) < 4:
+                feat = {"kind": "b2", "clause": f["fail"]}
+                ex = None
+            else:
+                ex = traces[tid][int(parts[3])]
+                first = res[tid][1]["selfie"].get(ex.get("a"))
+                feat = {"kind": "b2", "clause": parts[0], "k": parts[1], "msg": parts[2],
+                        "after_self_addressed": ex["ev"] == "C" and first is not None and first < int(parts[3])}
+            if common.skey(feat) in seen:
+                continue
+            seen.add(common.skey(feat))
+            chk.violation("B2 %s: %s" % (label, " ".join(parts[:3])), feat,
+                          {"failed_clauses": fl[:5], "cfg": traces[tid][0], "event": _clip_trace([ex] if ex else []),
+                           "before": _clip_trace(traces[tid][max(1, int(parts[3]) - 4):int(parts[3])] if ex else [])})
     names = set()
     for i, (t, stats) in enumerate(res):
         names |= stats["names"]
